@@ -200,10 +200,12 @@ def c01(prop, tier, seed, wd, explore, limit, kinds, we):
     cases += P.numeral_sweep(prop, seed, tier, ("locate", "extract"))
     rule = ("every dictionary size 1..34 x bucket sizes 2,3,4,8 for the five front-coding kinds (boundary sweep); corner corpus + seeded random input sets x 13 kinds x seeded parameter vector x 2 of {fresh, own loader, generic loader}; a case is (kind, params, input set, state); "
             "non-trivial = completed case with >=2 strings and, for front-coding kinds, >=2 buckets or a partially filled last bucket; distinct by hash of (kind, params, input, state)")
-    return dict_check(prop, tier, seed, wd, explore, limit, kinds, we, cases, rule)
+    req = () if (kinds or limit) else ("in_n1", "in_n2", "in_n_mult_b", "in_n_mult_b_plus1", "in_last_bucket_partial", "in_buckets_ge3", "in_lcp_ge128", "in_lcp_127_128_129", "in_lcp_mult128",
+                                       "in_len_127_128_129", "in_byte_02", "in_byte_FE", "in_all_len1", "in_last_len1", "in_member_is_proper_prefix", "in_text_ge_128KiB")
+    return dict_check(prop, tier, seed, wd, explore, limit, kinds, we, cases, rule, required=req)
 
-RULE_BASE = ("corner corpus (%d fixed sets) + seeded random input sets from 22 families x kinds x seeded parameter vectors x object states; a case is (kind, params, input set, state, ops); "
-             "distinct by hash of that tuple; non-trivial = completed case with >=2 strings and, for front-coding kinds, >=2 buckets or a partially filled last bucket") % len(gen.corner_corpus())
+RULE_BASE = ("corner corpus (%d fixed sets) + seeded random input sets from %d families x kinds x seeded parameter vectors x object states; a case is (kind, params, input set, state, ops); "
+             "distinct by hash of that tuple; non-trivial = completed case with >=2 strings and, for front-coding kinds, >=2 buckets or a partially filled last bucket") % (len(gen.corner_corpus()), len(gen.FAMILIES))
 
 @register("C02")
 def c02(prop, tier, seed, wd, explore, limit, kinds, we):
